@@ -16,6 +16,26 @@ from monkeytype.config import DefaultConfig
 
 from . import core, oracle, stubread, synth, tracerun, vals
 
+def snapshot(v):
+    """the value as it is NOW (containers copied, exact container classes kept): a traced function may change its argument in
+    place afterwards"""
+    t = type(v)
+    if t is list:
+        return [snapshot(e) for e in v]
+    if t is tuple:
+        return tuple(snapshot(e) for e in v)
+    if t is set:
+        return set(v)
+    if t is dict:
+        return {k_: snapshot(x) for k_, x in v.items()}
+    if t is collections.defaultdict:
+        d = collections.defaultdict(v.default_factory)
+        for k_, x in v.items():
+            d[k_] = snapshot(x)
+        return d
+    return v
+
+
 LEVEL = "exploration"
 RULE = ("synthesised target modules (functions, instance/class/static methods, properties, inherited/overridden methods, nested "
         "functions, closures, wraps-decorated functions, inner-class methods; plain / generator / coroutine flavours; optional "
@@ -111,7 +131,7 @@ def run_case(ctx, env, prog, k, rw, flags, blocks, use_default):
         return monkeytype.trace(cfg)
 
     os.environ["MTV_ONLY"] = "<pending>"
-    res = tracerun.run_program(prog, env.sc, k=k, typer=lambda v: v, keep_module=True, tracer_cm=tracer_cm, blocks=blocks,
+    res = tracerun.run_program(prog, env.sc, k=k, typer=snapshot, keep_module=True, tracer_cm=tracer_cm, blocks=blocks,
                                on_module=lambda path: os.environ.__setitem__("MTV_ONLY", path))
     try:
         if res.driver_error is not None:
